@@ -94,7 +94,22 @@ pub trait Family: Sync + Send {
     fn crash_properties(&self) -> &'static [&'static str] {
         &["C04"]
     }
+    /// address-space limit of a worker process in bytes: a compiler that needs more for one case
+    /// aborts (allocation failure), the worker dies and the death is attributed to the case
+    fn worker_address_space_limit(&self) -> Option<u64> {
+        None
+    }
 }
+
+#[repr(C)]
+struct RLimit {
+    cur: u64,
+    max: u64,
+}
+unsafe extern "C" {
+    fn setrlimit(resource: i32, rlim: *const RLimit) -> i32;
+}
+const RLIMIT_AS: i32 = 9;
 
 // ------------------------------------------------------------------ worker side
 
@@ -148,6 +163,13 @@ pub fn worker_main(fam: &dyn Family, tier: Tier, w: usize, k: usize, from: usize
     let _ = std::env::set_current_dir(&ctx.scratch.empty);
     // silence the default panic hook (panics are caught and reported as findings)
     std::panic::set_hook(Box::new(|_| {}));
+    if let Some(bytes) = fam.worker_address_space_limit() {
+        let lim = RLimit { cur: bytes, max: bytes };
+        if unsafe { setrlimit(RLIMIT_AS, &lim) } != 0 {
+            eprintln!("machinery: setrlimit(RLIMIT_AS) failed");
+            std::process::exit(3);
+        }
+    }
     let mut agg = Agg::default();
     let mut since = 0u64;
     let mut last_idx = from;
